@@ -42,8 +42,8 @@ CONSTANTS Pods,      \* pod ids (naturals >= 1)
 G(p, clause) == IF p \in Enforce THEN clause ELSE TRUE
 GA(clause) == Enforce \cap {"C04", "C05", "C09"} = {} \/ clause
 
-NoRec == [c |-> 0, e |-> 0, a |-> 0, s |-> FALSE]        \* a stored record: container id, interface, address, sticky
-NoAck == [c |-> 0, e |-> 0, a |-> 0]
+NoRec == [c |-> 0, e |-> 0, a |-> 0, a6 |-> 0, s |-> FALSE]   \* a stored record: container id, interface, IPv4 address, IPv6 address (0 = none), sticky
+NoAck == [c |-> 0, e |-> 0, a |-> 0, a6 |-> 0]
 NoPod == [api |-> FALSE, loc |-> "none", sticky |-> FALSE, cached |-> FALSE]
 NoEni == [on |-> FALSE, as |-> {}]
 NoWr  == [p |-> 0, rec |-> NoRec, by |-> ""]
@@ -68,10 +68,11 @@ vars == <<cloud, pod, disk, wr, acked, rpc, gc, gcn, apierr, conv, up, dbf>>
 
 Open(r) == rpc[r].st \in {"called", "in", "outP", "outG"}
 InHandler(r) == rpc[r].st \in {"in", "outP", "outG"}
-AckLiveIn(ak, p) == ak[p] # NoAck /\ cloud[ak[p].e].on /\ ak[p].a \in cloud[ak[p].e].as
+AckLiveIn(ak, p) == ak[p] # NoAck /\ cloud[ak[p].e].on /\ ak[p].a \in cloud[ak[p].e].as /\ (ak[p].a6 = 0 \/ ak[p].a6 \in cloud[ak[p].e].as)
 AckLive(p) == AckLiveIn(acked, p)
 Vanished(p) == ~pod[p].api /\ pod[p].loc # "run"
-SameAlloc(rec, ak) == rec.e = ak.e /\ rec.a = ak.a
+SameAlloc(rec, ak) == rec.e = ak.e /\ rec.a = ak.a /\ rec.a6 = ak.a6                    \* the same address (pair, on a dual-stack node)
+Overlap(x, y) == x.e = y.e /\ (x.a = y.a \/ (x.a6 # 0 /\ x.a6 = y.a6))                \* one address of either family in both
 
 Init == /\ cloud = [e \in Enis |-> NoEni]
         /\ pod = [p \in Pods |-> NoPod]
@@ -172,7 +173,7 @@ PutBegin(p, rec) ==
             /\ InHandler(r) /\ rpc[r].k = "add" /\ rpc[r].p = p /\ rpc[r].c = rec.c
             /\ StillInside(r)
             /\ G("C04", AckLive(p) => SameAlloc(rec, acked[p]))                                      \* repeated ADD: the same address
-            /\ G("C05", \A q \in Pods \ {p} : (AckLiveIn(Owed, q) /\ ~Vanished(q)) => ~SameAlloc(rec, Owed[q]))   \* never an address another pod (still there) was told it holds
+            /\ G("C05", \A q \in Pods \ {p} : (AckLiveIn(Owed, q) /\ ~Vanished(q)) => ~Overlap(rec, Owed[q]))   \* never an address another pod (still there) was told it holds
             /\ wr' = [p |-> p, rec |-> rec, by |-> "rpc"]
             /\ gcn' = [gcn EXCEPT ![p] = 0]
             /\ UNCHANGED gc
@@ -222,13 +223,13 @@ WriteEnd(p, ok) ==
     /\ gc' = IF ~ok /\ wr.by = "gc" THEN [gc EXCEPT !.dirty = TRUE] ELSE gc        \* a pass whose database write failed is not an undisturbed pass
     /\ UNCHANGED <<cloud, pod, apierr, conv, up>>
 
-RpcRet(r, ok, code, e, a) ==
+RpcRet(r, ok, code, e, a, a6) ==
     /\ Open(r)
     /\ LET p == rpc[r].p
            k == rpc[r].k
            c == rpc[r].c
            seen == IF rpc[r].st = "in" THEN disk[p] ELSE rpc[r].snap        \* what a GET can have read
-           mine == [c |-> c, e |-> e, a |-> a]
+           mine == [c |-> c, e |-> e, a |-> a, a6 |-> a6]
        IN
        /\ (~ok /\ code = "processing") =>
              /\ G("C04", rpc[r].ovl)                                                                 \* only while another request of the pod is in flight
@@ -295,11 +296,13 @@ GcLoop(alive) ==
 (* ex: pods whose ADD failed at the database write. The address such an ADD leaves with the pool until the retry or *)
 (* the next restart is outside the quantifiers of C04 (no database faults), C05 (restart) and C09 (lenient).       *)
 OwnersAgree(own, d, ak, ex) ==
-    /\ \A x \in own : x.p \in ex \/ (x.p \in Pods /\ d[x.p] # NoRec /\ d[x.p].e = x.e /\ d[x.p].a = x.a)   \* no owner without a record
-    /\ \A p \in Pods : (AckLiveIn(ak, p) /\ ~Vanished(p)) => [e |-> ak[p].e, a |-> ak[p].a, p |-> p] \in own   \* an acknowledged pod (still there) owns its address
+    /\ \A x \in own : x.p \in ex \/ (x.p \in Pods /\ d[x.p] # NoRec /\ d[x.p].e = x.e /\ x.a \in {d[x.p].a, d[x.p].a6})   \* no owner without a record
+    /\ \A p \in Pods : (AckLiveIn(ak, p) /\ ~Vanished(p)) =>                                       \* an acknowledged pod (still there) owns its address(es)
+          /\ [e |-> ak[p].e, a |-> ak[p].a, p |-> p] \in own
+          /\ (ak[p].a6 # 0 => [e |-> ak[p].e, a |-> ak[p].a6, p |-> p] \in own)
 
 (* Two stored records never name one address: a restart replays both, whichever is replayed last owns the address. *)
-NoDupRecords(d) == \A p, q \in Pods : (p # q /\ d[p] # NoRec /\ d[q] # NoRec) => ~SameAlloc(d[p], d[q])
+NoDupRecords(d) == \A p, q \in Pods : (p # q /\ d[p] # NoRec /\ d[q] # NoRec) => ~Overlap(d[p], d[q])
 
 (* Quiescent: no request, no pass, no write in progress.  own = the pool's own owner table. *)
 Obs(diskobs, memobs, own, cl) ==
@@ -345,8 +348,8 @@ Probe(diskobs, own, adds) ==
           /\ G("C05", OwnersAgree(own, diskobs, ak, {}))
           /\ G("C05", \A i \in 1..n : adds[i].ok =>
                  /\ (AckLiveIn(ak, adds[i].p) => SameAlloc(adds[i], ak[adds[i].p]))                  \* same address again
-                 /\ \A q \in Pods \ {adds[i].p} : AckLiveIn(ak, q) => ~SameAlloc(adds[i], ak[q])     \* never another pod's
-                 /\ \A j \in 1..(i - 1) : (adds[j].ok /\ adds[j].p # adds[i].p) => ~SameAlloc(adds[i], adds[j]))
+                 /\ \A q \in Pods \ {adds[i].p} : AckLiveIn(ak, q) => ~Overlap(adds[i], ak[q])     \* never another pod's
+                 /\ \A j \in 1..(i - 1) : (adds[j].ok /\ adds[j].p # adds[i].p) => ~Overlap(adds[i], adds[j]))
     /\ UNCHANGED vars
 
 (* The bolt file written by a bare stream of Put/Delete (kill sampling): no request attribution. *)
@@ -357,7 +360,7 @@ RawBegin(p, rec) ==
 
 -----------------------------------------------------------------------------
 (* State invariants (theorems of the guarded specification) *)
-AckedExclusive == \A p, q \in Pods : (p # q /\ AckLiveIn(Owed, p) /\ AckLiveIn(Owed, q)) => ~SameAlloc(Owed[p], Owed[q])
+AckedExclusive == \A p, q \in Pods : (p # q /\ AckLiveIn(Owed, p) /\ AckLiveIn(Owed, q)) => ~Overlap(Owed[p], Owed[q])
 AckedOnDisk == \A p \in Pods :
                   (acked[p] # NoAck /\ wr.p # p /\ ~(\E r \in Rpcs : InHandler(r) /\ rpc[r].p = p) /\ gc.st = "idle" /\ up)
                   => (disk[p] # NoRec /\ (AckLive(p) => SameAlloc(disk[p], acked[p])))
